@@ -14,7 +14,7 @@ from typing import (
 
 from ..._utils import OrderedDict, deduplicate, flatten
 from ...exc import UnknownType
-from ...lang import ast as _ast
+from ...lang import ast as _ast, print_ast
 from ...schema import (
     Field,
     GraphQLCompositeType,
@@ -635,7 +635,7 @@ def _same_arguments(
             (
                 a1.name.value == a2.name.value
                 and type(a1.value) == type(a2.value)  # noqa: E721
-                and a1.value.value == a2.value.value  # type: ignore
+                and print_ast(a1.value) == print_ast(a2.value)
             )
             for a1, a2 in zip(s1, s2)
         )
